@@ -422,6 +422,18 @@ fn gen_key(rng: &mut Rng) -> (Vec<u8>, &'static str) {
                 .collect();
             (v, "letters")
         }
+        8 if rng.chance(1, 3) => {
+            // field-content may hold SP / HTAB between visible characters
+            // (RFC 9110 §5.5); the digest covers them like any other byte
+            let n = 3 + rng.usize(30);
+            let mut v: Vec<u8> =
+                (0..n).map(|_| TCHAR[rng.usize(TCHAR.len())]).collect();
+            for _ in 0..1 + rng.usize(3) {
+                let at = 1 + rng.usize(n - 2);
+                v[at] = if rng.bool() { b' ' } else { b'\t' };
+            }
+            (v, "inner-blanks")
+        }
         _ => {
             let n = 1 + rng.usize(48);
             ((0..n).map(|_| TCHAR[rng.usize(TCHAR.len())]).collect(), "token")
@@ -675,6 +687,7 @@ fn gen_case(seed: u64, shard: u64, idx: u64, quick: bool) -> Case {
         NameCase::Upper,
         NameCase::Random,
     ]);
+    let first_cap = if rng.chance(1, 8) { 100_000 } else { 300 };
     Case {
         shard,
         idx,
@@ -689,7 +702,7 @@ fn gen_case(seed: u64, shard: u64, idx: u64, quick: bool) -> Case {
         flow,
         payload,
         pay_class,
-        first: 1 + rng.below(if rng.chance(1, 8) { 100_000 } else { 300 }) as u32,
+        first: 1 + rng.below(first_cap) as u32,
         bye: rng.below(200) as u32,
         follow_up: rng.chance(1, 3),
     }
@@ -948,6 +961,19 @@ impl Shard {
         // requests whose exchange ended inconclusively were not judged
         self.rep.count("ch_enter_of_unjudged_requests", enters.len() as u64);
         drop(run);
+    }
+
+    /// coverage of the dimensions that are not part of the class signature
+    fn dims(&mut self, case: &Case) {
+        self.rep.count(&format!("dim_names:{}", case.names.tag()), 1);
+        self.rep.count(&format!("dim_key:{}", case.key_class), 1);
+        self.rep.count(
+            &format!("dim_endpoint:{}", if case.param_ep { "path+query" } else { "plain" }),
+            1,
+        );
+        if let Some(c) = case.pay_class.split('/').nth(1) {
+            self.rep.count(&format!("dim_payload_content:{c}"), 1);
+        }
     }
 
     fn wit(&self, case: &Case, built: &Built) -> Value {
@@ -1301,13 +1327,13 @@ impl Shard {
             None
         };
         let class = format!(
-            "{}|conn:{}|upg:{}|names:{}|key:{}|ep:{}|{}|pay:{}{}",
+            "{}|conn:{}|upg:{}|{}|pay:{}{}",
             if may_refuse { "unconstrained" } else { "accept" },
-            conn_sp.tag(), upg_sp.tag(), case.names.tag(), case.key_class,
-            if case.param_ep { "param" } else { "plain" },
+            conn_sp.tag(), upg_sp.tag(),
             case.flow.tag(), case.pay_class.split('/').next().unwrap_or(""),
             if reuse.is_some() { "|after-refusal" } else { "" },
         );
+        self.dims(case);
         let reused = reuse.is_some();
         let Some(mut conn) = reuse.or_else(|| self.connect()) else { return };
         // what goes out together with the handshake
@@ -1480,11 +1506,8 @@ impl Shard {
             ),
             _ => "method".into(),
         };
-        let class = format!(
-            "refuse|missing:{subset}|{what}|names:{}|ep:{}",
-            case.names.tag(),
-            if case.param_ep { "param" } else { "plain" }
-        );
+        let class = format!("refuse|missing:{subset}|{what}");
+        self.dims(case);
         let Some(mut conn) = self.connect() else { return };
         if let Err(e) = conn.send(&built.bytes) {
             self.rep.inconclusive(&format!("send-failed:{}", e.kind()));
@@ -1538,7 +1561,8 @@ impl Shard {
             c2.kind = Kind::Complete { conn: Sp::Plain, upg: Sp::Plain };
             if c2.payload.len() > 4096 {
                 c2.payload.truncate(4096);
-                c2.pay_class = "126-4K/cut".into();
+                let content = c2.pay_class.split('/').nth(1).unwrap_or("").to_string();
+                c2.pay_class = format!("126-4K/{content}");
             }
             self.run_accept(&c2, reg(&mut rng), reg(&mut rng), false, Some(conn));
         }
@@ -1689,9 +1713,8 @@ impl Shard {
                 Some(e) => {
                     let want_h = format!("{:016x}", fnv_step(FNV_OFF, &m.sent));
                     self.rep.eval(format!(
-                        "accept|concurrent|ep:{}|names:{}|key:{}",
+                        "accept|concurrent-herd|ep:{}",
                         if m.case.param_ep { "param" } else { "plain" },
-                        m.case.names.tag(), m.case.key_class
                     ));
                     self.rep.count("bytes_client_to_server", m.sent.len() as u64);
                     if e.kind != "CH_EOF" || e.n != m.sent.len() as i64 || e.s != want_h {
